@@ -478,6 +478,32 @@ func hasCmpFact(facts []Fact, want string, lhs, rhs VM) bool {
 	return false
 }
 
+// hasCmpFactExact: like hasCmpFact but the fact must be exactly `lhs want
+// rhs` (not a stronger comparison). Used for must-act conditions, where a
+// stronger guard means the action happens in fewer states than required.
+func hasCmpFactExact(facts []Fact, want string, lhs, rhs VM) bool {
+	for _, f := range facts {
+		b, ok := f.V.(*ssa.BinOp)
+		if !ok {
+			continue
+		}
+		op := cmpString(b.Op)
+		if op == "" {
+			continue
+		}
+		if !f.Pol {
+			op = negCmp(op)
+		}
+		if lhs(b.X) && rhs(b.Y) && op == want {
+			return true
+		}
+		if lhs(b.Y) && rhs(b.X) && flipCmp(op) == want {
+			return true
+		}
+	}
+	return false
+}
+
 func cmpString(t token.Token) string {
 	switch t {
 	case token.LSS:
